@@ -41,3 +41,17 @@ package mresults
 //@     invariant forall(k, 0, rangeindex+1, ret >= entries[k].runningVal)
 //@     invariant implies(rangeindex >= 0, exists(k, 0, rangeindex+1, ret == entries[k].runningVal))
 //@ end
+
+// C09 (the answer is the same for any split of a series across blocks and
+// segments): MetricsResult.Merge folds the partial result of one search unit
+// into the global one.  For a series both sides know, the incoming samples are
+// merged INTO the series object that is registered in r.AllSeries (what the
+// later stages read), never the other way round; a series only the incoming
+// side knows is registered as it is.
+//@ func (*MetricsResult).Merge
+//@   props C09
+//@   site call currSeries.Merge #1:
+//@     assert [merged-into-the-registered-series] haskey(r.AllSeries, tsid) && arg0 == r.AllSeries[tsid]
+//@   site mapupdate r.AllSeries[tsid] #1:
+//@     assert [only-an-unknown-series-is-registered-as-it-is] !haskey(r.AllSeries, tsid)
+//@ end
